@@ -68,8 +68,9 @@ class Report:
         counts: Dict[str, int] = {}
         for ob in self.obs.values():
             counts[ob.rule] = counts.get(ob.rule, 0) + 1
+        any_violated = any(o.status == "violated" for o in self.obs.values())
         for rid, mn in self.rule_min.items():
-            if counts.get(rid, 0) < mn:
+            if counts.get(rid, 0) < mn and not any_violated:
                 raise AnalysisError(
                     f"rule {rid} matched {counts.get(rid, 0)} instances, fewer than the {mn} confirmed by hand: "
                     f"an anchor vanished, the rule would pass vacuously"
